@@ -158,9 +158,16 @@ func c14(c *Ctx) {
 						}
 						argLists, conf = append(argLists, l), append(conf, true)
 					}
+					if last.Type == mpath.PT_Any {
+						// variadic Any parameters given paths: an Any-typed path first, then literals
+						argLists, conf = append(argLists, append(append([]string{}, base...), "$.a", argFor(last.Type, 1))), append(conf, true)
+						argLists, conf = append(argLists, append(append([]string{}, base...), "$.s", "$.a", "$.n")), append(conf, true)
+					}
 				} else {
 					argLists, conf = append(argLists, base), append(conf, true)
 					argLists, conf = append(argLists, append(append([]string{}, base...), "1")), append(conf, false) // one too many
+					argLists, conf = append(argLists, append(append([]string{}, base...), "$.a")), append(conf, false) // … the surplus one a path of type Any
+					argLists, conf = append(argLists, append(append([]string{}, base...), "$.s")), append(conf, false) // … or a typed path
 				}
 			} else {
 				argLists, conf = append(argLists, []string{}), append(conf, true)
@@ -286,6 +293,9 @@ func c14(c *Ctx) {
 			}
 		case "other":
 			for _, w := range wrongTypeMsgs {
+				if w == "unhandled param" && strings.Contains(e.ec.Query, "$.a") {
+					continue // an argument read from a `_` field can hold anything: what it holds is data-dependent
+				}
 				if strings.Contains(o.Note, w) {
 					c.Violation("relation", fmt.Sprintf("query %q was accepted by CueValidate but fails at run time with a wrong-type error on conforming data: %s", e.ec.Query, o.Note), cs)
 					break
